@@ -37,10 +37,11 @@ const (
 	modeNtN                       // library = node-to-node initiator
 	modeNtNServer                 // library = node-to-node responder
 	modeDMQ                       // library = DMQ node-to-client initiator
+	modeNtNDuplex                 // library = node-to-node initiator, full duplex: client and server halves run
 )
 
 func (m connMode) String() string {
-	return [...]string{"ntc-client", "ntn-client", "ntn-server", "dmq-client"}[m]
+	return [...]string{"ntc-client", "ntn-client", "ntn-server", "dmq-client", "ntn-duplex"}[m]
 }
 
 // wire is one message the peer can put on the protocol's stream.
@@ -59,7 +60,22 @@ type ev struct {
 	Bad    []wire // kinds it does not admit here (generic ones are added by the runner)
 	Call   string // API call pending at this point (label used in finding keys)
 	RIdx   int    // index of this reply within the pending call (filled by finish())
+	// stream of this event when it differs from the scenario's (duplex scenarios):
+	// protocol id, whether the peer speaks as the initiator, protocol name for keys
+	HasStream bool
+	PID       uint16
+	AsInit    bool
+	ProtoName string
+	PauseUs   int // > 0: the peer just waits this long (neither send nor receive)
 }
+
+// on binds an event to a stream other than the scenario's default one.
+func (e ev) on(name string, pid uint16, peerIsInitiator bool) ev {
+	e.HasStream, e.PID, e.AsInit, e.ProtoName = true, pid, peerIsInitiator, name
+	return e
+}
+
+func pause(us int, call string) ev { return ev{Recv: -1, PauseUs: us, Call: call} }
 
 func rq(tag int, call string) ev { return ev{Recv: tag, Call: call} }
 
@@ -75,7 +91,13 @@ func rp(call string, legit wire, others ...wire) ev {
 type apiCall struct {
 	Name string
 	Do   func(c *ouroboros.Connection) (string, error)
+	// ErrOK: the legitimate script makes this call return an error (a refused
+	// acquire, a block that is not there, an expired context, ...); the caller goes
+	// on with the next call: failed operations are history steps
+	ErrOK bool
 }
+
+func (a apiCall) failing() apiCall { a.ErrOK = true; return a }
 
 type scenario struct {
 	Name    string
@@ -96,7 +118,12 @@ type scenario struct {
 	// by the flood fault (protocols whose state maps declare a
 	// PendingMessageByteLimit; the limits are read from SM.Map)
 	Flood []floodMsg
-	sends []int // indices of send events
+	// StopCall is the client's Stop() (flood variant "stop in progress")
+	StopCall *apiCall
+	// Timeouts: the scenario configures short (250 ms) protocol timeouts, so the
+	// silence-timeout fault applies: the peer goes silent and never closes
+	Timeouts bool
+	sends    []int // indices of send events
 }
 
 // floodMsg is a candidate message of the flood fault. IdleOnly candidates are well
@@ -153,7 +180,7 @@ func (s *scenario) finish() *scenario {
 			last = s.Script[i].Call
 			seen = map[string]int{}
 		}
-		if s.Script[i].Recv >= 0 {
+		if s.Script[i].Recv >= 0 || s.Script[i].PauseUs > 0 {
 			continue
 		}
 		seen[s.Script[i].Send.Kind]++
@@ -181,12 +208,14 @@ const (
 	fHsClose                        // close right after the handshake, before any request is read
 	fMidMsgClose                    // close in the middle of a message split over several segments
 	fFlood                          // valid messages whose total size exceeds the state's pending-byte limit, then the connection ends
+	fConnError                      // the transport fails with an error other than EOF (reset on read, broken pipe on write)
+	fSilenceTimeout                 // the peer goes silent and never closes: the library's own protocol timeout ends the connection
 	nFaultKinds
 	fNone = nFaultKinds // no fault (self-test of the legitimate scripts)
 )
 
 var faultNames = [...]string{"other-admitted", "not-admitted", "surplus", "truncated-segment-close", "close",
-	"silence-close", "garbage", "handshake-close", "midmessage-close", "flood-valid", "none"}
+	"silence-close", "garbage", "handshake-close", "midmessage-close", "flood-valid", "conn-error", "silence-timeout", "none"}
 
 func (f faultKind) String() string { return faultNames[f] }
 
@@ -200,7 +229,15 @@ func faultByName(s string) (faultKind, bool) {
 }
 
 // garbage flavours
-var garbageNames = [...]string{"raw-bytes", "framed-noise", "framed-bad-cbor", "framed-nonarray", "zero-length-segment", "unknown-protocol-id", "wrong-direction"}
+var garbageNames = [...]string{"raw-bytes", "framed-noise", "framed-bad-cbor", "framed-nonarray", "zero-length-segment", "unknown-protocol-id", "wrong-direction", "framed-65535-incomplete"}
+
+// where a truncated segment is cut (boundaries of the 8-byte header and of the payload, and one byte either side)
+var truncNames = [...]string{"payload-mid", "header-mid", "header-7of8", "header-only", "header+1", "all-but-last-byte"}
+
+// what happens around the end of the handshake
+var hsNames = [...]string{"close", "reply-minus-last-byte", "reply-last-byte-late", "refuse"}
+
+var connErrNames = [...]string{"read-reset", "write-epipe", "read-reset+peer-close"}
 
 // planSpec is the JSON form of a rawpeer.SeqPlan.
 type planSpec struct {
@@ -227,6 +264,10 @@ type caseSpec struct {
 	EndLocal  bool     `json:"end_local"` // true: the harness calls Close() while the peer is still open
 	CallDelay int      `json:"call_delay_us"`
 	AfterErr  bool     `json:"continue_after_error"`
+	// DoubleClose: Close() is called from two goroutines at once and once more afterwards
+	DoubleClose bool `json:"double_close,omitempty"`
+	// NoErrReader: the application does not read ErrorChan() until Close() has returned
+	NoErrReader bool `json:"no_error_reader,omitempty"`
 	Noise     []byte   `json:"noise,omitempty"`
 	PlanLib   planSpec `json:"plan_lib"`
 	PlanPeer  planSpec `json:"plan_peer"`
@@ -303,7 +344,7 @@ func allGoroutines() []gor {
 }
 
 const libMark = "github.com/blinklabs-io/gouroboros"
-const callerMark = "props/faults.(*runner).caller"
+const callerMark = "props/faults.(*runner).caller" // also matches callerExtra
 const harnessMark = "verif/harness/"
 
 // libraryGoroutines returns the goroutines not in base that have a gouroboros
@@ -316,7 +357,7 @@ func libraryGoroutines(base map[int]bool, ignore map[string]bool) (leaks []gor, 
 			continue
 		}
 		if strings.Contains(g.Stack, callerMark) || strings.Contains(g.Stack, "faults.(*runner).newConn") ||
-			strings.Contains(g.Stack, "faults.(*runner).closer") {
+			strings.Contains(g.Stack, "faults.(*runner).closer") { // also closer2
 			// the harness's own goroutines inside an API call / NewConnection / Close():
 			// judged as calls
 			callers = append(callers, g)
@@ -411,6 +452,44 @@ type runner struct {
 	t0         time.Time
 	wireLog    []wireRec // messages in script order (self-check only)
 	gate       *chan struct{}
+	curPID     uint16 // stream of the current event
+	curResp    bool
+	fc         *faultConn
+	connReset  bool // the transport was made to fail (the connection has ended without a peer close)
+	extra      []callRec // calls made by the harness outside the caller (Stop during a flood)
+	extraWG    sync.WaitGroup
+}
+
+// stream selects the stream of an event (the scenario's default one unless the event names its own).
+func (r *runner) stream(e ev) {
+	if e.HasStream {
+		r.curPID, r.curResp = e.PID, !e.AsInit
+		return
+	}
+	r.curPID, r.curResp = r.scn.ProtoID, r.peerResp
+}
+
+// extraCall runs an API call in its own tracked goroutine (judged like the caller's calls).
+func (r *runner) extraCall(ac apiCall, c *ouroboros.Connection) {
+	r.mu.Lock()
+	i := len(r.extra)
+	r.extra = append(r.extra, callRec{Name: ac.Name + "(concurrent)", Started: true})
+	r.mu.Unlock()
+	r.extraWG.Add(1)
+	go r.callerExtra(ac, c, i)
+}
+
+func (r *runner) callerExtra(ac apiCall, c *ouroboros.Connection, i int) {
+	defer r.extraWG.Done()
+	res, err := ac.Do(c)
+	r.mu.Lock()
+	r.extra[i].Returned = true
+	r.extra[i].Result = res
+	if err != nil {
+		r.extra[i].Err = err.Error()
+	}
+	r.mu.Unlock()
+	r.logf("concurrent call %s -> %s %v", ac.Name, res, err)
 }
 
 type wireRec struct {
@@ -456,7 +535,7 @@ func (r *runner) caller(c *ouroboros.Connection) {
 		r.mu.Unlock()
 		if err != nil {
 			r.logf("call %s -> error %v", ac.Name, err)
-			if !r.cs.AfterErr {
+			if !r.cs.AfterErr && !ac.ErrOK {
 				return
 			}
 		} else {
@@ -470,7 +549,7 @@ func (r *runner) send(w wire) {
 	if max > 0 && len(w.Data)/max > 300 {
 		max = len(w.Data)/300 + 1 // keep the number of segments of a big block bounded
 	}
-	segs := rawpeer.SplitPayload(r.scn.ProtoID, r.peerResp, w.Data, max)
+	segs := rawpeer.SplitPayload(r.curPID, r.curResp, w.Data, max)
 	if err := r.peer.Send(segs...); err != nil {
 		r.logf("peer send %s: %v", w.Kind, err)
 		return
@@ -488,7 +567,7 @@ func msgTag(b []byte) int {
 
 // await waits for a library message with the given tag.
 func (r *runner) await(tag int, d time.Duration) bool {
-	m, err := r.peer.NextMsg(r.scn.ProtoID, !r.peerResp, d)
+	m, err := r.peer.NextMsg(r.curPID, !r.curResp, d)
 	if err != nil {
 		r.logf("peer: expected library message tag %d: %v", tag, err)
 		return false
@@ -521,32 +600,33 @@ type position struct {
 	evIdx int // index into Script of the send event (-1: end / pre)
 	at    string
 	call  string
+	proto string // protocol of the event ("" = the scenario's)
 }
 
 func (r *runner) position() position {
 	s := r.scn
 	switch {
 	case r.fault == fNone:
-		return position{-2, "none", ""}
+		return position{-2, "none", "", ""}
 	case r.cs.Pos < 0:
 		c := ""
 		if len(s.Calls) > 0 {
 			c = s.Calls[0].Name
 		}
-		return position{-1, "pre", c}
+		return position{-1, "pre", c, ""}
 	case r.cs.Pos >= len(s.sends):
 		c := ""
 		if len(s.Script) > 0 {
 			c = baseLabel(s.Script[len(s.Script)-1].Call)
 		}
-		return position{-1, "end", c}
+		return position{-1, "end", c, ""}
 	}
 	e := s.Script[s.sends[r.cs.Pos]]
 	at := "at=" + e.Send.Kind
 	if e.RIdx > 1 {
 		at += fmt.Sprintf("#%d", e.RIdx)
 	}
-	return position{s.sends[r.cs.Pos], at, baseLabel(e.Call)}
+	return position{s.sends[r.cs.Pos], at, baseLabel(e.Call), e.ProtoName}
 }
 
 // baseLabel drops the "~n" instance suffix of a call label.
@@ -563,8 +643,20 @@ func runCase(scn *scenario, cs caseSpec, bound time.Duration) outcome {
 }
 
 func (r *runner) closer(c *ouroboros.Connection) {
+	if r.cs.DoubleClose {
+		// close during close: two concurrent Close() calls and a third one afterwards
+		second := make(chan struct{})
+		go r.closer2(c, second)
+		_ = c.Close()
+		<-second
+	}
 	_ = c.Close()
 	close(r.closeDone)
+}
+
+func (r *runner) closer2(c *ouroboros.Connection, done chan struct{}) {
+	_ = c.Close()
+	close(done)
 }
 
 // closeGrace: how long after a peer disconnect the harness waits for pending
@@ -609,6 +701,8 @@ func runCaseIgnoring(scn *scenario, cs caseSpec, bound time.Duration, ignore map
 	}
 
 	r.ca, r.cb = rawpeer.Pipe(cs.PlanLib.plan(), cs.PlanPeer.plan())
+	r.fc = &faultConn{FragConn: r.ca}
+	r.curPID, r.curResp = scn.ProtoID, r.peerResp
 	r.peer = rawpeer.NewPeer(r.cb)
 	defer func() {
 		r.peer.Close()
@@ -616,12 +710,15 @@ func runCaseIgnoring(scn *scenario, cs caseSpec, bound time.Duration, ignore map
 	}()
 
 	// ---- connection + handshake
-	opts := []ouroboros.ConnectionOptionFunc{ouroboros.WithConnection(r.ca), ouroboros.WithNetworkMagic(testMagic)}
+	opts := []ouroboros.ConnectionOptionFunc{ouroboros.WithConnection(r.fc), ouroboros.WithNetworkMagic(testMagic)}
 	switch scn.Mode {
 	case modeNtN:
 		opts = append(opts, ouroboros.WithNodeToNode(true), ouroboros.WithPeerSharing(true))
 	case modeNtNServer:
 		opts = append(opts, ouroboros.WithNodeToNode(true), ouroboros.WithServer(true))
+	case modeNtNDuplex:
+		// the peer echoes the version data, i.e. it agrees to initiator-and-responder mode
+		opts = append(opts, ouroboros.WithNodeToNode(true), ouroboros.WithPeerSharing(true), ouroboros.WithFullDuplex(true))
 	case modeDMQ:
 		opts = append(opts, ouroboros.WithDMQ(true))
 	}
@@ -630,16 +727,73 @@ func runCaseIgnoring(scn *scenario, cs caseSpec, bound time.Duration, ignore map
 	}
 	ncErr := make(chan error, 1)
 	go r.newConn(opts, ncErr)
+	hsVariant := ""
+	if fk == fHsClose {
+		hsVariant = hsNames[mod(cs.Variant, len(hsNames))]
+		if scn.Mode == modeNtNServer && hsVariant != "close" {
+			hsVariant = "proposal-minus-last-byte"
+		}
+	}
+	hsLinger := func() {
+		if cs.LingerUs > 0 {
+			time.Sleep(time.Duration(cs.LingerUs) * time.Microsecond)
+		}
+	}
 	var hsErr error
 	if scn.Mode == modeNtNServer {
 		data := xcbor.A(xcbor.U(testMagic), xcbor.Bool(true), xcbor.U(0), xcbor.Bool(false))
-		var reply []byte
-		reply, hsErr = r.peer.ProposeHandshake(14, data, 20*time.Second)
-		if hsErr == nil && msgTag(reply) != 1 {
-			hsErr = fmt.Errorf("responder did not accept: %x", reply)
+		if hsVariant == "proposal-minus-last-byte" {
+			// the proposal arrives without its last byte, then the peer is gone
+			prop := rawpeer.Frame(rawpeer.Seg{ProtoID: 0, Response: false, Payload: xcbor.A(xcbor.U(0), xcbor.M(xcbor.U(14), data)).Encode()})
+			_ = r.peer.SendBytes(prop[:len(prop)-1])
+			hsLinger()
+			r.peer.Close()
+			r.logf("FAULT handshake: proposal without its last byte, then close")
+		} else {
+			var reply []byte
+			reply, hsErr = r.peer.ProposeHandshake(14, data, 20*time.Second)
+			if hsErr == nil && msgTag(reply) != 1 {
+				hsErr = fmt.Errorf("responder did not accept: %x", reply)
+			}
 		}
-	} else {
+	} else if hsVariant == "" || hsVariant == "close" {
 		_, hsErr = r.peer.AcceptHandshake(20*time.Second, nil)
+	} else {
+		// the reply is built here so that its last byte can be withheld / it can be a refusal
+		var msg []byte
+		msg, hsErr = r.peer.NextMsg(0, false, 20*time.Second)
+		if hsErr == nil {
+			n, perr := xcbor.ParseExact(msg)
+			if perr != nil || n.Kind != xcbor.Array || len(n.Items) != 2 || n.Items[1].Kind != xcbor.Map || len(n.Items[1].Items) < 2 {
+				hsErr = fmt.Errorf("unexpected proposal %x", clipb(msg))
+			} else {
+				vm := n.Items[1]
+				best := vm.Items[0].Arg
+				for i := 0; i+1 < len(vm.Items); i += 2 {
+					if vm.Items[i].Arg > best {
+						best = vm.Items[i].Arg
+					}
+				}
+				reply := rawpeer.Frame(rawpeer.Seg{ProtoID: 0, Response: true, Payload: xcbor.A(xcbor.U(1), xcbor.U(best), vm.MapGet(best)).Encode()})
+				switch hsVariant {
+				case "reply-minus-last-byte":
+					_ = r.peer.SendBytes(reply[:len(reply)-1])
+					hsLinger()
+					r.peer.Close()
+				case "reply-last-byte-late":
+					_ = r.peer.SendBytes(reply[:len(reply)-1])
+					hsLinger()
+					_ = r.peer.SendBytes(reply[len(reply)-1:])
+					r.peer.Close()
+				case "refuse":
+					// MsgRefuse, VersionMismatch: a failed operation, then (later) the disconnect
+					_ = r.peer.SendMsg(0, true, xcbor.A(xcbor.U(2), xcbor.A(xcbor.U(0), xcbor.A(xcbor.U(1)))).Encode())
+					hsLinger()
+					r.peer.Close()
+				}
+				r.logf("FAULT handshake: %s", hsVariant)
+			}
+		}
 	}
 	if hsErr != nil {
 		out.What = "harness: handshake failed: " + hsErr.Error()
@@ -649,14 +803,14 @@ func runCaseIgnoring(scn *scenario, cs caseSpec, bound time.Duration, ignore map
 	}
 	r.logf("handshake done")
 
-	if fk == fHsClose {
+	if fk == fHsClose && hsVariant == "close" {
 		// the peer goes away before anything else happens; NewConnection may or may
 		// not have returned yet
-		if cs.LingerUs > 0 {
-			time.Sleep(time.Duration(cs.LingerUs) * time.Microsecond)
-		}
+		hsLinger()
 		r.peer.Close()
 		r.logf("peer closed right after the handshake")
+	}
+	if fk == fHsClose {
 		out.Injected = true
 	}
 
@@ -679,6 +833,11 @@ func runCaseIgnoring(scn *scenario, cs caseSpec, bound time.Duration, ignore map
 	conn := r.conn
 	if ncE == nil && conn != nil {
 		go func() {
+			if cs.NoErrReader {
+				// an application that does not look at the error channel before it has
+				// closed the connection (the channel is buffered)
+				<-r.closeDone
+			}
 			for e := range conn.ErrorChan() {
 				r.mu.Lock()
 				if len(r.connErrs) < 10 {
@@ -713,6 +872,9 @@ func runCaseIgnoring(scn *scenario, cs caseSpec, bound time.Duration, ignore map
 			go r.closer(conn)
 		}
 	}
+	if r.connReset {
+		peerClosed = true // the transport failed: the connection has ended without the application's doing
+	}
 	if cs.EndLocal && !peerClosed {
 		r.logf("the harness ends the connection (peer still open)")
 		callClose()
@@ -739,6 +901,11 @@ func runCaseIgnoring(scn *scenario, cs caseSpec, bound time.Duration, ignore map
 				hung = append(hung, c.Name)
 			}
 		}
+		for _, c := range r.extra {
+			if !c.Returned {
+				hung = append(hung, c.Name)
+			}
+		}
 		r.mu.Unlock()
 		leaks, callers = libraryGoroutines(base, ignore)
 		out.leakFuncs = out.leakFuncs[:0]
@@ -759,7 +926,7 @@ func runCaseIgnoring(scn *scenario, cs caseSpec, bound time.Duration, ignore map
 			return "errchan-open"
 		case len(leaks) > 0:
 			return "goroutine-leak@" + strings.Join(out.leakFuncs, "+")
-		case len(callers) > 0 || !chanClosed(r.callerDone):
+		case len(callers) > 0 || !r.callsDone():
 			return "winding-down" // the harness's own goroutines are about to finish
 		}
 		return ""
@@ -787,15 +954,19 @@ func runCaseIgnoring(scn *scenario, cs caseSpec, bound time.Duration, ignore map
 	}
 	sleep := 200 * time.Microsecond
 	symptom := ""
+	var needClose []string
 	for {
 		el := time.Since(endAt)
-		if !closeCalled && (chanClosed(r.callerDone) || el >= closeGrace) {
-			// a peer disconnect ends the connection: calls are expected to return without
-			// the application calling Close(); it is called once they did, or after a
-			// grace period to see whether it unblocks them
-			if !chanClosed(r.callerDone) {
+		if !closeCalled && (r.callsDone() || el >= bound*6/10) {
+			// a peer disconnect / transport error / protocol timeout ends the connection:
+			// the pending calls have to return without the application calling Close().
+			// Close() is called once they did; if they are still pending after 60 % of
+			// the bound it is called anyway, and calls that return only then are reported
+			// as call-needs-close
+			if !r.callsDone() {
 				out.NeededClose = true
-				r.logf("calls still pending %v after the peer closed", closeGrace)
+				needClose = append([]string(nil), r.pendingNames()...)
+				r.logf("calls still pending %v after the connection ended: %v", el, needClose)
 			}
 			callClose()
 		}
@@ -854,10 +1025,13 @@ func runCaseIgnoring(scn *scenario, cs caseSpec, bound time.Duration, ignore map
 	if symptom == "winding-down" {
 		symptom = "harness-goroutine-stuck"
 	}
+	if symptom == "" && len(needClose) > 0 {
+		symptom = "call-needs-close=" + strings.Join(needClose, ",")
+	}
 	out.SettleMs = float64(time.Since(endAt).Microseconds()) / 1000
 
 	r.mu.Lock()
-	out.Calls = append([]callRec(nil), r.calls...)
+	out.Calls = append(append([]callRec(nil), r.calls...), r.extra...)
 	out.ConnErrors = append([]string(nil), r.connErrs...)
 	r.mu.Unlock()
 	for _, c := range out.Calls {
@@ -869,6 +1043,8 @@ func runCaseIgnoring(scn *scenario, cs caseSpec, bound time.Duration, ignore map
 	switch {
 	case strings.HasPrefix(symptom, "call-hang"):
 		out.What = fmt.Sprintf("API call %s has not returned %d ms after the connection ended", strings.Join(hung, ","), out.BoundMs)
+	case strings.HasPrefix(symptom, "call-needs-close"):
+		out.What = fmt.Sprintf("API call %s was still blocked %d ms after the connection had ended (peer disconnect / transport error / protocol timeout) and returned only when the application called Close()", strings.Join(needClose, ","), out.BoundMs*6/10)
 	case symptom == "close-hang":
 		out.What = fmt.Sprintf("Connection.Close() has not returned after %d ms", out.BoundMs)
 	case symptom == "errchan-open":
@@ -933,7 +1109,11 @@ func (r *runner) key(pos position, variant, symptom string) string {
 	if call == "" {
 		call = "-"
 	}
-	return fmt.Sprintf("%s:%s:%s%s:%s:%s", r.scn.Proto, call, r.cs.Fault, optEq(variant), pos.at, symptom)
+	proto := r.scn.Proto
+	if pos.proto != "" {
+		proto = pos.proto
+	}
+	return fmt.Sprintf("%s:%s:%s%s:%s:%s", proto, call, r.cs.Fault, optEq(variant), pos.at, symptom)
 }
 
 // predictedKeys lists the keys a case can produce (one per symptom); used to
@@ -947,7 +1127,11 @@ func predictedKeyPrefix(scn *scenario, cs caseSpec) (prefix string) {
 	if call == "" {
 		call = "-"
 	}
-	return fmt.Sprintf("%s:%s:%s%s:%s:", scn.Proto, call, cs.Fault, optEq(v), pos.at)
+	proto := scn.Proto
+	if pos.proto != "" {
+		proto = pos.proto
+	}
+	return fmt.Sprintf("%s:%s:%s%s:%s:", proto, call, cs.Fault, optEq(v), pos.at)
 }
 
 func chanClosed(ch chan struct{}) bool {
@@ -962,6 +1146,38 @@ func chanClosed(ch chan struct{}) bool {
 // callerDoneOrIdle: the caller goroutine ends when all calls returned (or the
 // first error); a call that never returns keeps it alive.
 func (r *runner) callerDoneOrIdle() chan struct{} { return r.callerDone }
+
+// callsDone: the caller goroutine has finished and every concurrent call has returned.
+func (r *runner) callsDone() bool {
+	if !chanClosed(r.callerDone) {
+		return false
+	}
+	r.mu.Lock()
+	defer r.mu.Unlock()
+	for _, c := range r.extra {
+		if !c.Returned {
+			return false
+		}
+	}
+	return true
+}
+
+func (r *runner) pendingNames() []string {
+	r.mu.Lock()
+	defer r.mu.Unlock()
+	var out []string
+	for _, c := range r.calls {
+		if c.Started && !c.Returned {
+			out = append(out, c.Name)
+		}
+	}
+	for _, c := range r.extra {
+		if !c.Returned {
+			out = append(out, c.Name)
+		}
+	}
+	return out
+}
 
 func (r *runner) pendingCall() bool {
 	r.mu.Lock()
@@ -1004,6 +1220,20 @@ func (r *runner) variantName(pos position) string {
 		}
 	case fGarbage:
 		return garbageNames[mod(r.cs.Variant, len(garbageNames))]
+	case fTruncSeg:
+		return truncNames[mod(r.cs.Variant, len(truncNames))]
+	case fConnError:
+		return connErrNames[mod(r.cs.Variant, len(connErrNames))]
+	case fHsClose:
+		v := hsNames[mod(r.cs.Variant, len(hsNames))]
+		if r.scn.Mode == modeNtNServer && v != "close" {
+			v = "proposal-minus-last-byte"
+		}
+		return v
+	case fFlood:
+		if mod(r.cs.Variant, 2) == 1 && r.scn.StopCall != nil {
+			return "stop-in-progress"
+		}
 	}
 	return ""
 }
@@ -1068,7 +1298,18 @@ func variantCount(scn *scenario, fk faultKind, p int) int {
 	case fGarbage:
 		return len(garbageNames)
 	case fTruncSeg:
-		return 2 // inside the payload / inside the segment header
+		return len(truncNames)
+	case fConnError:
+		return len(connErrNames)
+	case fHsClose:
+		if scn.Mode == modeNtNServer {
+			return 2
+		}
+		return len(hsNames)
+	case fFlood:
+		if scn.StopCall != nil {
+			return 2
+		}
 	}
 	return 1
 }
@@ -1081,8 +1322,10 @@ func applicable(scn *scenario, fk faultKind, p int) bool {
 		return p == -1
 	case fOtherAdmitted:
 		return p >= 0 && !end && len(scn.Script[scn.sends[p]].Others) > 0
-	case fNotAdmitted, fSurplus, fClose, fSilenceClose, fGarbage:
+	case fNotAdmitted, fSurplus, fClose, fSilenceClose, fGarbage, fConnError:
 		return p >= 0 && (!end || len(scn.sends) > 0 || fk != fSurplus)
+	case fSilenceTimeout:
+		return scn.Timeouts && p >= 0 && !end
 	case fTruncSeg, fMidMsgClose:
 		return p >= 0 && !end && len(scn.Script[scn.sends[p]].Send.Data) >= 2
 	case fFlood:
@@ -1134,7 +1377,7 @@ func (r *runner) script(pos position, out *outcome) (variant string, peerClosed 
 				r.logf("FAULT surplus: %s then a surplus %s", e.Send.Kind, w.Kind)
 				if cs.Cut%2 == 0 {
 					// both in one segment
-					seg := rawpeer.Seg{ProtoID: s.ProtoID, Response: r.peerResp, Payload: append(append([]byte(nil), e.Send.Data...), w.Data...)}
+					seg := rawpeer.Seg{ProtoID: r.curPID, Response: r.curResp, Payload: append(append([]byte(nil), e.Send.Data...), w.Data...)}
 					if len(seg.Payload) <= 0xffff {
 						_ = r.peer.Send(seg)
 						return false
@@ -1152,12 +1395,21 @@ func (r *runner) script(pos position, out *outcome) (variant string, peerClosed 
 			if cut >= len(d) {
 				cut = len(d) - 1
 			}
-			full := rawpeer.Frame(rawpeer.Seg{ProtoID: s.ProtoID, Response: r.peerResp, Payload: d})
+			full := rawpeer.Frame(rawpeer.Seg{ProtoID: r.curPID, Response: r.curResp, Payload: d})
 			hdrCut := 8 + cut
-			if mod(cs.Variant, 2) == 1 {
-				hdrCut = 1 + mod(cs.Cut, 7) // inside the 8-byte segment header
+			switch truncNames[mod(cs.Variant, len(truncNames))] {
+			case "header-mid":
+				hdrCut = 1 + mod(cs.Cut, 6) // inside the 8-byte segment header
+			case "header-7of8":
+				hdrCut = 7
+			case "header-only":
+				hdrCut = 8
+			case "header+1":
+				hdrCut = 9
+			case "all-but-last-byte":
+				hdrCut = len(full) - 1
 			}
-			r.logf("FAULT truncated segment: %d of %d bytes of the segment carrying %s, then close", hdrCut, len(full), e.Send.Kind)
+			r.logf("FAULT truncated segment (%s): %d of %d bytes of the segment carrying %s, then close", truncNames[mod(cs.Variant, len(truncNames))], hdrCut, len(full), e.Send.Kind)
 			_ = r.peer.SendBytes(full[:hdrCut])
 			r.peer.Close()
 			peerClosed = true
@@ -1169,7 +1421,7 @@ func (r *runner) script(pos position, out *outcome) (variant string, peerClosed 
 				cut = len(d) - 1
 			}
 			r.logf("FAULT mid-message close: first segment with %d of %d bytes of %s, then close", cut, len(d), e.Send.Kind)
-			_ = r.peer.Send(rawpeer.Seg{ProtoID: s.ProtoID, Response: r.peerResp, Payload: d[:cut]})
+			_ = r.peer.Send(rawpeer.Seg{ProtoID: r.curPID, Response: r.curResp, Payload: d[:cut]})
 			if cs.LingerUs > 0 {
 				time.Sleep(time.Duration(cs.LingerUs) * time.Microsecond)
 			}
@@ -1206,7 +1458,7 @@ func (r *runner) script(pos position, out *outcome) (variant string, peerClosed 
 			go func() {
 				defer close(sent)
 				for i := 0; i < n; i++ {
-					segs := rawpeer.SplitPayload(s.ProtoID, r.peerResp, w.Data, r.cs.SegMax*1000)
+					segs := rawpeer.SplitPayload(r.curPID, r.curResp, w.Data, r.cs.SegMax*1000)
 					if r.peer.Send(segs...) != nil {
 						return
 					}
@@ -1228,7 +1480,47 @@ func (r *runner) script(pos position, out *outcome) (variant string, peerClosed 
 				}
 			}
 			r.logf("flood: %d bytes still unread in the pipe", last)
+			if mod(cs.Variant, 2) == 1 && s.StopCall != nil && r.conn != nil {
+				// back-pressure and a Stop() in progress when the connection ends
+				r.extraCall(*s.StopCall, r.conn)
+				time.Sleep(2 * time.Millisecond)
+			}
 			return true // nothing more is sent; the connection ends next (peer close or local Close)
+		case fConnError:
+			v := connErrNames[mod(cs.Variant, len(connErrNames))]
+			r.logf("FAULT transport error: %s", v)
+			switch v {
+			case "read-reset":
+				r.fc.failReads()
+				r.connReset = true
+				return true
+			case "read-reset+peer-close":
+				r.fc.failReads()
+				r.peer.Close()
+				r.connReset = true
+				peerClosed = true
+				return true
+			case "write-epipe":
+				// the library's next write fails; the legitimate script goes on (a reply may
+				// still arrive), reads keep working until the connection ends
+				r.fc.failWrites()
+				if e.Send.Data != nil {
+					r.send(e.Send)
+				}
+				return false
+			}
+			return true
+		case fSilenceTimeout:
+			// nothing is sent and the peer stays connected: the library's own state
+			// timeout (250 ms in these scenarios) has to end the connection
+			r.logf("FAULT silence without close (waiting for the library's timeout)")
+			if r.peer.WaitClosed(4 * time.Second) {
+				r.logf("the library closed the connection by itself")
+				r.connReset = true // ended without the application's doing
+			} else {
+				r.logf("the library did not close the connection within 4 s")
+			}
+			return true
 		case fClose:
 			r.logf("FAULT close")
 			r.peer.Close()
@@ -1254,17 +1546,23 @@ func (r *runner) script(pos position, out *outcome) (variant string, peerClosed 
 			case "raw-bytes":
 				_ = r.peer.SendBytes(noise)
 			case "framed-noise":
-				_ = r.peer.Send(rawpeer.Seg{ProtoID: s.ProtoID, Response: r.peerResp, Payload: framedNoise})
+				_ = r.peer.Send(rawpeer.Seg{ProtoID: r.curPID, Response: r.curResp, Payload: framedNoise})
 			case "framed-bad-cbor":
-				_ = r.peer.Send(rawpeer.Seg{ProtoID: s.ProtoID, Response: r.peerResp, Payload: []byte{0x82, 0x1c, 0xff, 0xff}})
+				_ = r.peer.Send(rawpeer.Seg{ProtoID: r.curPID, Response: r.curResp, Payload: []byte{0x82, 0x1c, 0xff, 0xff}})
 			case "framed-nonarray":
-				_ = r.peer.Send(rawpeer.Seg{ProtoID: s.ProtoID, Response: r.peerResp, Payload: xcbor.M(xcbor.U(1), xcbor.T("x")).Encode()})
+				_ = r.peer.Send(rawpeer.Seg{ProtoID: r.curPID, Response: r.curResp, Payload: xcbor.M(xcbor.U(1), xcbor.T("x")).Encode()})
 			case "zero-length-segment":
-				_ = r.peer.Send(rawpeer.Seg{ProtoID: s.ProtoID, Response: r.peerResp, Payload: nil})
+				_ = r.peer.Send(rawpeer.Seg{ProtoID: r.curPID, Response: r.curResp, Payload: nil})
 			case "unknown-protocol-id":
-				_ = r.peer.Send(rawpeer.Seg{ProtoID: 0x3abc, Response: r.peerResp, Payload: xcbor.A(xcbor.U(0)).Encode()})
+				_ = r.peer.Send(rawpeer.Seg{ProtoID: 0x3abc, Response: r.curResp, Payload: xcbor.A(xcbor.U(0)).Encode()})
 			case "wrong-direction":
-				_ = r.peer.Send(rawpeer.Seg{ProtoID: s.ProtoID, Response: !r.peerResp, Payload: xcbor.A(xcbor.U(0)).Encode()})
+				_ = r.peer.Send(rawpeer.Seg{ProtoID: r.curPID, Response: !r.curResp, Payload: xcbor.A(xcbor.U(0)).Encode()})
+			case "framed-65535-incomplete":
+				// a segment of the maximum payload length carrying the beginning of an item
+				// that never completes ([99, bytes(1 MiB) ...)
+				pl := make([]byte, 0xffff)
+				copy(pl, []byte{0x82, 0x18, 0x63, 0x5a, 0x00, 0x10, 0x00, 0x00})
+				_ = r.peer.Send(rawpeer.Seg{ProtoID: r.curPID, Response: r.curResp, Payload: pl})
 			}
 			return false
 		}
@@ -1272,6 +1570,11 @@ func (r *runner) script(pos position, out *outcome) (variant string, peerClosed 
 	}
 
 	for i, e := range s.Script {
+		r.stream(e)
+		if e.PauseUs > 0 {
+			time.Sleep(time.Duration(e.PauseUs) * time.Microsecond)
+			continue
+		}
 		if e.Recv >= 0 {
 			wait := reqWait
 			if out.Injected {
@@ -1303,6 +1606,7 @@ func (r *runner) script(pos position, out *outcome) (variant string, peerClosed 
 		case <-time.After(reqWait):
 		}
 	}
+	r.stream(ev{})
 	if pos.at == "end" {
 		// let the last call finish before the fault, so that the position is really "after the conversation"
 		select {
